@@ -116,6 +116,7 @@ Definition as_op (t : tree) : option op :=
   | TL [TI 8] => Some OEnterHC
   | TL [TI 9] => Some OExitHC
   | TL [TI 11; i; r] => match as_nat i, as_raw r with Some i', Some r' => Some (OSetOrigin i' r') | _, _ => None end
+  | TL [TI 12; l; b; r] => match as_nat l, as_bool b, as_raw r with Some l', Some b', Some r' => Some (OSetHeader l' b' r') | _, _, _ => None end
   | _ => None
   end.
 
